@@ -154,11 +154,18 @@ theorem C12_current :
     MdsVerif.Gen.Slice.recognised = true ∧
     (∀ c, MdsVerif.Gen.Slice.lndsFast c = decide (c ≥ 0)) ∧
     MdsVerif.Gen.Slice.lndsUsesBisectRight = true ∧
-    (∀ r, MdsVerif.Gen.Slice.lndsFirst r = decide (r = 0)) ∧
+    (∀ (r : Nat), MdsVerif.Gen.Slice.lndsFirst r = decide (r = 0)) ∧
     (∀ c, MdsVerif.Gen.Slice.lisFast c = decide (c > 0)) ∧
     MdsVerif.Gen.Slice.lisUsesBisectRight = false ∧
-    (∀ r, MdsVerif.Gen.Slice.lisFirst r = decide (r = 0)) ∧
+    (∀ (r : Nat), MdsVerif.Gen.Slice.lisFirst r = decide (r = 0)) ∧
     (∀ c, MdsVerif.Gen.Slice.bisectGoLeft c = decide (c > 0)) :=
-  ⟨rfl, fun _ => rfl, rfl, fun _ => rfl, fun _ => rfl, rfl, fun _ => rfl, fun _ => rfl⟩
+  ⟨rfl,
+   by gen_fact MdsVerif.Gen.Slice.lndsFast,
+   by gen_fact MdsVerif.Gen.Slice.lndsUsesBisectRight,
+   by gen_fact MdsVerif.Gen.Slice.lndsFirst,
+   by gen_fact MdsVerif.Gen.Slice.lisFast,
+   by gen_fact MdsVerif.Gen.Slice.lisUsesBisectRight,
+   by gen_fact MdsVerif.Gen.Slice.lisFirst,
+   by gen_fact MdsVerif.Gen.Slice.bisectGoLeft⟩
 
 end MdsVerif.Props.C12
